@@ -76,7 +76,9 @@ def gen_nlris(rng, fam: int, count: int, addpath: bool, seen: set, size_bias: st
 
 def gen_case(rng, tier: str, big_ok: bool) -> dict:
     fams = list(weighted(rng, FAM_SETS))
-    addpath = int(rng.random() < 0.3)
+    # ADD-PATH is not combined with ipv4 multicast: on the unchanged code an ipv4 multicast NLRI lands in the
+    # classic fields (finding family-changed), where the peer then expects a path id — the same defect seen twice
+    addpath = int(rng.random() < 0.3 and 2 not in fams)
     M = rng.choice([4096, 4096, 65535])
     ibgp = int(rng.random() < 0.5)
     cfg, n, neg, _ = pr.get_session(tuple(fams), bool(addpath), M, bool(ibgp))
@@ -268,7 +270,7 @@ def features(case: dict, res: dict) -> list[str]:
 def run(ctx: Ctx) -> None:
     rng = ctx.rng
     quick = ctx.tier == 'quick'
-    ncases = 1500 if quick else 40000
+    ncases = 6000 if quick else 150000
     ctx.rule = (
         'one case = one real UpdateCollection (IPv4/IPv6 unicast+multicast INET NLRIs, masks incl. every byte-length boundary, 0-4 MP next hops, with/without ADD-PATH, '
         'attribute block tuned with communities + a generic attribute so that msg_size lands on chosen values around 0..120, 254..263 and the free range, on 4096 and 65535 sessions, include_withdraw True/False) '
@@ -280,21 +282,15 @@ def run(ctx: Ctx) -> None:
     seen_canon: dict[str, dict] = {}
     pending: list[tuple[dict, dict, str, dict | None]] = []  # (case, impl result, origin, corpus entry)
     t_start = time.time()
-    big_budget = 3 if quick else 60
+    big_budget = 6 if quick else 150
 
-    def flush() -> None:
+    def flush() -> None:  # model side, in batches
         if not pending or not ctx.driver_ok:
             pending.clear()
             return
         outs = pr.model_out([p[1]['line'] for p in pending])
         for (case, res, origin, entry), mo in zip(pending, outs):
-            impl = (res['status'], res['canon'])
-            undec = any(x.endswith('undecodable') or x.endswith(' eor') for x in res['canon'])
-            if undec or res['status'] == 'error':
-                # the partition cannot be read off the wire; lengths still must agree
-                same = [int(x.split(' ')[0]) for x in mo['canon']] == res['lens']
-            else:
-                same = impl == (mo['status'], mo['canon'])
+            same = agree(res, mo)
             if entry and 'expect_line' in entry and entry['expect_line'] != res['line']:
                 ctx.disagreements.append(Disagreement('pack-witness', {'file': entry['_file']}, entry['expect_line'], res['line']))
             if entry and 'expect' in entry:
@@ -383,12 +379,21 @@ def run(ctx: Ctx) -> None:
     ctx.notes.append(f'{ctx.evaluations} cases in {dt:.1f}s = {ctx.evaluations / max(dt, 0.001):.0f} cases/s (real packer + per-message real decode + oracle; model run in batches of 100)')
 
 
+def agree(res: dict, mo: dict) -> bool:
+    """Model and implementation say the same about one case: same end status, same messages (length,
+    and which NLRI sits in which section of which message)."""
+    undec = any(x.endswith('undecodable') or x.endswith(' eor') or '?' in x for x in res['canon'])
+    if undec or res['status'] == 'error':
+        # the partition cannot be read off the wire (the oracle reports that); lengths still must agree
+        return [int(x.split(' ')[0]) for x in mo['canon']] == res['lens']
+    return (res['status'], res['canon']) == (mo['status'], mo['canon'])
+
+
 def shrink_disagreement(case: dict) -> dict:
     def differs(c: dict) -> bool:
         try:
             r = pr.run_impl(c)
-            m = pr.model_out([r['line']])[0]
-            return (r['status'], r['canon']) != (m['status'], m['canon'])
+            return not agree(r, pr.model_out([r['line']])[0])
         except Exception:
             return False
 
